@@ -133,8 +133,32 @@ func (n *normalizer) elseInits(is *ast.IfStmt) {
 
 // taglessSwitch converts `switch { case …: }` without fallthrough into an if chain.
 func (n *normalizer) taglessSwitch(sw *ast.SwitchStmt) []ast.Stmt {
+	var tag ast.Expr
 	if sw.Tag != nil {
-		return nil
+		// `switch v { case a: … case b: … }` over variables (no constants, no calls) is the chain
+		// `if v == a {…} else if v == b {…}`: the cases are compared in order, as written
+		if !n.plainOperand(sw.Tag) {
+			return nil
+		}
+		nonConst := false
+		for _, c := range sw.Body.List {
+			cc, ok := c.(*ast.CaseClause)
+			if !ok {
+				return nil
+			}
+			for _, e := range cc.List {
+				if !n.plainOperand(e) {
+					return nil
+				}
+				if tv, ok := n.info().Types[e]; !ok || tv.Value == nil {
+					nonConst = true
+				}
+			}
+		}
+		if !nonConst {
+			return nil // a switch over named constants is a decision table the analyses read as such
+		}
+		tag = sw.Tag
 	}
 	var clauses []*ast.CaseClause
 	var def *ast.CaseClause
@@ -172,9 +196,17 @@ func (n *normalizer) taglessSwitch(sw *ast.SwitchStmt) []ast.Stmt {
 	}
 	var first, cur *ast.IfStmt
 	for _, cc := range clauses {
-		cond := cc.List[0]
+		test := func(e ast.Expr) ast.Expr {
+			if tag == nil {
+				return e
+			}
+			eq := &ast.BinaryExpr{X: tag, OpPos: e.Pos(), Op: token.EQL, Y: e}
+			n.setBool(eq)
+			return eq
+		}
+		cond := test(cc.List[0])
 		for _, more := range cc.List[1:] {
-			or := &ast.BinaryExpr{X: cond, OpPos: more.Pos(), Op: token.LOR, Y: more}
+			or := &ast.BinaryExpr{X: cond, OpPos: more.Pos(), Op: token.LOR, Y: test(more)}
 			n.setBool(or)
 			cond = or
 		}
@@ -649,4 +681,18 @@ func (n *normalizer) ringDrain(f *ast.File) {
 		fs.Body.List = append([]ast.Stmt{as}, fs.Body.List[2:]...)
 		return true
 	})
+}
+
+// plainOperand: an identifier, a constant or a field selection chain (no calls, no indexing): it
+// can be evaluated any number of times.
+func (n *normalizer) plainOperand(e ast.Expr) bool {
+	switch x := e.(type) {
+	case *ast.Ident, *ast.BasicLit:
+		return true
+	case *ast.ParenExpr:
+		return n.plainOperand(x.X)
+	case *ast.SelectorExpr:
+		return n.plainOperand(x.X)
+	}
+	return false
 }
